@@ -87,9 +87,14 @@ def subterms(t):
     st = [t]
     while st:
         x = st.pop()
-        if not isinstance(x, tuple) or x in seen:
+        if not isinstance(x, tuple) or not x or x in seen:
             continue
         seen.add(x)
+        if not isinstance(x[0], str):
+            for y in x:
+                if isinstance(y, tuple):
+                    st.append(y)
+            continue
         yield x
         for y in x:
             if isinstance(y, tuple):
